@@ -1081,7 +1081,13 @@ func (rr *NSEC3) parse(c *zlexer, o string) *ParseError {
 	if l.token == "" || l.err {
 		return &ParseError{err: "bad NSEC3 NextDomain", lex: l}
 	}
-	rr.HashLength = 20 // Fix for NSEC3 (sha1 160 bits)
+	// The text form carries no length octet: the length is that of the decoded
+	// base32hex token (20 for SHA-1, the only hash assigned so far).
+	hashLength := base32HexNoPadEncoding.DecodedLen(len(l.token))
+	if hashLength > 255 {
+		return &ParseError{err: "bad NSEC3 NextDomain", lex: l}
+	}
+	rr.HashLength = uint8(hashLength)
 	rr.NextDomain = l.token
 
 	rr.TypeBitMap = make([]uint16, 0)
